@@ -123,6 +123,8 @@ def handle : Handler := fun op a => do
     let runs ← asList (asList decAccess) (← field a "runs")
     return jobj [
       ("wf", .bool (wfDoc d)),
+      ("uniqueIds", .bool (uniqueIds cfg d)),
+      ("populateOk", .bool (populateOk cfg d)),
       ("documented", .arr ((documented d).map fun (p, m) => .arr [.str p, jopt .str m])),
       ("runs", .arr (runs.map fun accs => .arr ((trace cfg d St.init accs).map fun (r, st) =>
           jobj [("r", encRes r), ("stack", .arr (st.map encScope))])))]
@@ -134,6 +136,8 @@ def handle : Handler := fun op a => do
     return jobj [("conforms", .bool (conforms o s off)),
                  ("effective", .arr ((effective o s).map encParam)),
                  ("distinct", .bool (distinctKeys o && distinctKeys s))]
+  | "tables" =>
+    return jobj [("httpMethods", .arr (httpMethods.map .str)), ("hops", jnat hops)]
   | _ => .error s!"unknown op {op}"
 
 def main : IO Unit := run handle
